@@ -549,6 +549,17 @@ func TestReplay(t *testing.T) {
 	if err != nil {
 		t.Fatal(err)
 	}
+	var h History
+	if err := json.Unmarshal(rf.Case, &h); err == nil && h.Kind == "history" {
+		ev.Watch(rf.Sub, func() any { return &h })
+		msg, _, _ := runHistory(&h)
+		ev.Unwatch()
+		if msg != "" {
+			ev.R.Violation(rf.Sub, &h, msg)
+			t.Fatalf("C03 replay: %s", msg)
+		}
+		return
+	}
 	var c Case
 	if err := json.Unmarshal(rf.Case, &c); err != nil || c.N == 0 || c.Parents == nil {
 		// chain description
